@@ -2,6 +2,7 @@
   C16 — MaxExpressions bounds every parse (budget part; termination is in C16T).
 -/
 import PigeonVerif.Proofs.TermProof
+import PigeonVerif.Proofs.FuelMono
 
 namespace PV
 namespace RT
@@ -79,6 +80,18 @@ theorem C16_terminates (E : Env) (n : Nat) (hn : E.opts.maxExpr = some n)
       | oof => intro _ h; exact absurd rfl h
       | panic p s => simp only [finish]; split <;> simp
       | done v ok s => simp only [finish]; split <;> (try split) <;> simp
+
+/-- **C16 (e)** The fuel of the model is only a recursion device: once a parse returns, every larger
+    fuel returns the same final result — in every configuration (memoization, left recursion,
+    with or without a budget). -/
+theorem C16_result_independent_of_fuel (E : Env) (f f' : Nat) (hf : f ≤ f') (hne : parse E f ≠ .oof) :
+    parse E f' = parse E f := parse_mono E hf hne
+
+/-- **C16 (f)** ... so under a budget (Memoize off) the parse is a TOTAL function of grammar, options
+    and input: the result exists (fuel `n + 2`) and no fuel gives another one. -/
+theorem C16_parse_total (E : Env) (n : Nat) (hn : E.opts.maxExpr = some n) (hmz : E.opts.memoize = false)
+    (fuel : Nat) (hf : n + 2 ≤ fuel) : parse E fuel = parse E (n + 2) ∧ parse E (n + 2) ≠ .oof :=
+  ⟨parse_mono E hf (C16_terminates E n hn hmz (n + 2) (Nat.le_refl _)), C16_terminates E n hn hmz (n + 2) (Nat.le_refl _)⟩
 
 /-- The full statement of C16 quantifies over Memoize as well. It is FALSE for the unchanged
     code with `Memoize(true)` (finding D15: a memo hit is not charged, so `("a"?)*` spins on cache
